@@ -596,6 +596,7 @@ func propC19(c *Check) {
 	c.errorDiscipline("R5", 500)
 	c.writeFailureMustFail("R5", 0)
 	c.readFailureForgivenOnlyIfNotFound("R5")
+	c.errorsIsArgumentOrder("R5")
 }
 
 
